@@ -56,14 +56,14 @@ def roundtrip(p):
             encd = []
             done = []
             _with_stub(lambda: eobs.subscribe(on_next=encd.append, on_error=lambda e: done.append(('ERR', repr(e))), on_completed=lambda: done.append('C')))
-            if done != ['C'] or len(encd) != len(items) + 1:
+            if done != ['C']:       # how the encoded bytes are spread over emitted chunks is the operator's business (the statement speaks about their concatenation)
                 return fail(stage='encode', subscription=sub, items=items, observed=encd, done=done)
             if whole is not None and b''.join(encd) != whole:
                 return fail(stage='encode', subscription=sub, items=items, observed=b''.join(encd), expected=whole)
             whole = b''.join(encd)
         if enc in BOM:
             b = BOM[enc]
-            if whole[:len(b)] != b or len(whole) != len(b) + sum(len(x) for x in encd[1:]) + len(encd[0]) - len(b):
+            if whole[:len(b)] != b:
                 return fail(stage='bom', observed=whole)
         if c1 > len(whole):
             return True
